@@ -187,7 +187,7 @@ theorem moves_handle (c : Cfg) (op : Op) : Moves c (handle c op) := by
   | endSync m => exact moves_endSync c m
 
 /-- one operation (errors included, any oracle stream) moves the FSM state along a path of the table -/
-theorem stepOp_moves (c : Cfg) (s : St) (now : Nat) (op : Op) (orc : List (Query × Bool)) (hwf : c.me < s.modes.length) :
+theorem stepOp_moves (c : Cfg) (s : St) (now : Nat) (op : Op) (orc : List (Query × Nat)) (hwf : c.me < s.modes.length) :
     Path (fsmOf c s) (fsmOf c (stepOp c s now op orc).1) ∧ (stepOp c s now op orc).1.modes.length = s.modes.length := by
   unfold stepOp
   cases h : (handle c op).run { s with now := now, out := [], oracle := orc, oracleBad := 0 } with
